@@ -22,9 +22,9 @@ Proof. intros H. apply isum_perm. apply (Permutation_count_occ item_eq_dec). exa
 Lemma bnumel_isum b : bnumel b = isum b.
 Proof. reflexivity. Qed.
 
-Lemma osum_emitted (em : list bucket) : osum (map (fun b => ar (bnumel b)) em) = isum (concat em).
+Lemma osum_emitted (em : list bucket) : osum (map bar em) = isum (concat em).
 Proof.
-  induction em as [|b t IH]; [reflexivity|]. cbn [map osum fold_right concat]. fold (osum (map (fun b0 => ar (bnumel b0)) t)).
+  induction em as [|b t IH]; [reflexivity|]. cbn [map osum fold_right concat]. fold (osum (map bar t)).
   rewrite isum_app, IH. reflexivity.
 Qed.
 
@@ -41,7 +41,7 @@ Qed.
 Lemma fac_adds_brun c cp ns : pW c <> 1 -> forall bs,
   fac_adds c (Some cp) bs ns =
   (fst (brun cp bs (map (fun n => Add (pW c) (fac_item c n)) ns)),
-   map (fun b => ar (bnumel b)) (snd (brun cp bs (map (fun n => Add (pW c) (fac_item c n)) ns)))).
+   map bar (snd (brun cp bs (map (fun n => Add (pW c) (fac_item c n)) ns)))).
 Proof.
   intros HW. induction ns as [|n t IH]; intros bs; [reflexivity|].
   cbn [fac_adds map brun]. unfold fac_add. destruct (Nat.eqb_spec (pW c) 1) as [E|_]; [contradiction|].
